@@ -378,3 +378,7 @@ for _p, _ds in DEPENDS.items():
         PROPS[_p]["explanation"] += " Also runs the obligations of %s, which this property presupposes." % _d
 PROPS["C04"]["units"] = ["geom", "pairs"]
 PROPS["C04"]["explanation"] += " The shapes' transform() clauses of unit pairs (a placed shape is the shape moved componentwise by the FULL transform, linear part included) and the SVG matrix order are obligations of this property too."
+# C01's last sentence ("every state ... the CLI can write is a physically realisable packing") presupposes that the written parameters are
+# the scored ones: the serde glue of the parameter cells (W01/2 narrowed them to f32 on the way out)
+KANI["k_serde_f64"]["props"] = sorted(set(KANI["k_serde_f64"]["props"]) | {"C01"})
+PROPS["C01"]["kani"] = list(PROPS["C01"].get("kani", [])) + ["k_serde_f64"]
